@@ -439,6 +439,10 @@ def plan(ctx):
             ("local", "/", "all other path-taking verbs", wide, 1, 2),
         ]
     for kind, root, _label, fnames, lo, hi in table:
+        if kind == "vfs":
+            # dromedary's (Rust) MemoryTransport.move never returns when a directory is moved into
+            # itself ("move / moved"); the form stays in the LocalTransport runs
+            fnames = [f for f in fnames if f != "move:from"]
         add(kind, root, fnames, hi, lo)
     for kind in ("vfs", "local"):
         items.append(("jail", kind, "/", None, 0, None))
@@ -486,6 +490,9 @@ def run(ctx):
         ctx.violation(sig, {"minimal": kmin[1], "effects": {e: v[1] for e, v in sorted(effs.items())},
                             "occurrences": {e: acc.counters.get("effect:%s:%s" % (sig, e), 0) for e in effs}})
     okc = {k[3:]: v for k, v in acc.counters.items() if k.startswith("ok:")}
+    ctx.assumptions.append("the request form move(path, 'moved') is not run on the memory-backed variant: the real "
+                           "MemoryTransport.move loops forever when the served directory is moved into itself "
+                           "(a hang in dromedary, not a jail matter); it is run on LocalTransport")
     never_ok = sorted(f for f in list(_VFS) + list(_DEEP) if not okc.get(f))
     if never_ok:
         raise HarnessError("C31: forms that never got a successful answer (vacuous): %r" % never_ok)
